@@ -22,7 +22,11 @@ func scopeScenario(r *rng) MalType {
 	thunk := ls(sy("fn"), vc(), x)                // (fn [] x)
 	inLet := ls(sy("let"), vc(sy("y"), 0), thunk) // closure created inside a let scope of its own
 	mk := []MalType{thunk, inLet}[r.intn(2)]
-	switch r.intn(10) {
+	switch r.intn(11) {
+	case 10:
+		// the operand of a call redefines the operator's name: the call still applies the OLD function
+		return ls(sy("do"), ls(sy("def"), g, ls(sy("fn"), vc(sy("a")), call1("list", kw("old"), sy("a")))),
+			call1("list", ls(g, ls(sy("do"), ls(sy("def"), g, ls(sy("fn"), vc(sy("a")), call1("list", kw("new"), sy("a")))), tr(v()))), ls(g, v())))
 	case 0:
 		// global, closure made in a function scope, resolved once, then def in that function scope
 		return ls(sy("do"), ls(sy("def"), x, v()),
